@@ -38,7 +38,9 @@ LEVEL_TEXT = ("Machine-checked: before the cut-off a timeout moves EVERY instanc
               "C07_sync_fault_free_generic; also evaluated for sizes 4, 7, 10, 13). "
               "Recovery is PROVED for one family of states, for every committee: after a silent first round (nothing delivered, "
               "up to n - quorum operators silent) the live operators decide the round-2 leader's value in round 2, and what they "
-              "broadcast is what the schedule delivers (C07_recovery_from_silent_round). "
+              "broadcast is what the schedule delivers (C07_recovery_from_silent_round); and after a first round that PREPARED the "
+              "leader's value everywhere but delivered no commit, round 2 re-proposes and decides that value "
+              "(C07_recovery_from_prepared_round). "
               "PARTIAL: recovery from every reachable state is explored on the real code (timely continuation after adversarial "
               "prefixes, rounds needed are measured), not proved.")
 LEVEL_NOTE = ("Partial claim: C07's existential recovery sentence is supported by exploration only; a heuristic continuation that "
